@@ -542,6 +542,56 @@ def boundary_gallina(bexpr, node, fname):
     return 'BOther "%s"' % txt.replace('"', "'")
 
 
+def name_gallina(encl, call):
+    """the explicit task/layer name of a map_blocks/map_overlap call, as data:
+    NameAuto (no name=: Dask tokenizes the function and every argument itself), NameToken [uncovered] (name built
+    with dask tokenize(...); `uncovered` = parameters of the enclosing function that reach the mapped call but are
+    not covered by the token), NameFixed (a name that does not depend on the arguments at all)."""
+    nexpr = kw(call, 'name')
+    if nexpr is None or (isinstance(nexpr, ast.Constant) and nexpr.value is None):
+        return 'NameAuto'
+    assign = single_assignments(encl)
+    params = [a.arg for a in encl.args.args]
+
+    def closure(e, seen=()):
+        out = set()
+        for n in ast.walk(e):
+            if isinstance(n, ast.Name):
+                if n.id in params:
+                    out.add(n.id)
+                elif n.id in assign and n.id not in seen and not isinstance(assign[n.id], tuple):
+                    out |= closure(assign[n.id], seen + (n.id,))
+        return out
+
+    def token_args(e, seen=()):
+        """params covered by tokenize(...) calls inside the name expression"""
+        out = None
+        for n in ast.walk(e):
+            if isinstance(n, ast.Call) and ast.unparse(n.func).split('.')[-1] == 'tokenize':
+                out = (out or set())
+                for a in list(n.args) + [k.value for k in n.keywords]:
+                    out |= closure(a)
+            elif isinstance(n, ast.Name) and n.id in assign and n.id not in seen and not isinstance(assign[n.id], tuple):
+                sub = token_args(assign[n.id], seen + (n.id,))
+                if sub is not None:
+                    out = (out or set()) | sub
+        return out
+    covered = token_args(nexpr)
+    if covered is None:
+        return 'NameFixed'
+    used = set()
+    f = call.func
+    if isinstance(f, ast.Attribute) and not (isinstance(f.value, ast.Name) and f.value.id == 'da'):
+        used |= closure(f.value)
+    for a in call.args:
+        used |= closure(a)
+    for k in call.keywords:
+        if k.arg not in ('name', 'meta', 'dtype'):
+            used |= closure(k.value)
+    uncovered = [x for x in params if x in used and x not in covered]
+    return 'NameToken [%s]' % '; '.join(coq_str(x) + '%string' for x in uncovered)
+
+
 def calls_in(fd):
     return [n for n in ast.walk(fd) if isinstance(n, ast.Call)]
 
@@ -632,8 +682,9 @@ def collect(repo):
                 if f.attr == 'map_overlap' and module_form:
                     fail('da.map_overlap(func, x, ...) form is not modelled (only x.map_overlap)', c, fname)
                 for k in c.keywords:
-                    if k.arg not in ('depth', 'boundary', 'meta', 'dtype'):
+                    if k.arg not in ('depth', 'boundary', 'meta', 'dtype', 'name'):
                         fail('%s keyword %s= is not modelled' % (f.attr, k.arg), c, fname)
+                taskname = name_gallina(fd, c)
                 f2, kfd, bound_pos, bound_kw = resolve_mapped(world, fname, fd, c.args[0], c)
                 if is_gpu_func(kfd):
                     continue
@@ -660,7 +711,7 @@ def collect(repo):
                 plans.append(dict(site='%s:%s' % (fname, fd.name), mapped='%s:%s' % (f2, kfd.name), kind=kind,
                                   depth=depth, boundary=boundary, radius='(%s, %s)' % (ka.radius_g[0], ka.radius_g[1]),
                                   block_reductions=ka.block_reductions, same=same, line=c.lineno,
-                                  block_params=block_params))
+                                  block_params=block_params, taskname=taskname))
     if not plans:
         fail('no Dask plan found at all in the anchored files')
     return plans, reductions
@@ -680,6 +731,9 @@ def generate(repo):
     L.append('')
     L.append('Inductive boundary := BNaN | BConst (z : Z) | BNone | BOther (s : string).')
     L.append('Inductive mapkind := MapOverlap | MapBlocks.')
+    L.append('(* NameAuto: no name=, Dask tokenizes function + all arguments; NameToken u: name built with tokenize(..), u = the')
+    L.append('   arguments reaching the mapped call that the token leaves out; NameFixed: argument-independent name *)')
+    L.append('Inductive taskname := NameAuto | NameToken (uncovered : list string) | NameFixed.')
     L.append('Record plan := mkPlan {')
     L.append('  p_site : string;                 (* file:function holding the call *)')
     L.append('  p_mapped : string;               (* the NumPy kernel that is mapped (through partial / wrappers) *)')
@@ -688,16 +742,17 @@ def generate(repo):
     L.append('  p_boundary : boundary;')
     L.append('  p_radius : Z -> Z -> Z * Z;      (* how far the kernel reads from the output cell: (rows, cols) *)')
     L.append('  p_block_reductions : list string;(* reductions over a whole block inside the mapped kernel *)')
-    L.append('  p_same_kernel : bool             (* the NumPy backend of the same dispatcher runs this kernel *)')
+    L.append('  p_same_kernel : bool;            (* the NumPy backend of the same dispatcher runs this kernel *)')
+    L.append('  p_name : taskname                (* explicit name= of the Dask layer, if any *)')
     L.append('}.')
     L.append('')
     L.append('Definition plans : list plan := [')
     rows = []
     for p in plans:
         br = '[' + '; '.join(coq_str(x) + '%string' for x in p['block_reductions']) + ']'
-        rows.append('  (* line %d, block params %s *)\n  mkPlan %s %s %s\n    (fun kr kc : Z => %s) (%s)\n    (fun kr kc : Z => %s)\n    (%s)%%list %s' % (
+        rows.append('  (* line %d, block params %s *)\n  mkPlan %s %s %s\n    (fun kr kc : Z => %s) (%s)\n    (fun kr kc : Z => %s)\n    (%s)%%list %s (%s)' % (
             p['line'], ' '.join(p['block_params']), coq_str(p['site']), coq_str(p['mapped']), p['kind'], p['depth'],
-            p['boundary'], p['radius'], br, 'true' if p['same'] else 'false'))
+            p['boundary'], p['radius'], br, 'true' if p['same'] else 'false', p['taskname']))
     L.append(';\n'.join(rows))
     L.append('].')
     L.append('')
@@ -728,6 +783,10 @@ RULE = ('for each of the 27 public functions the property lists (slope aspect cu
         'shape <= raster (non-square included), chunkings: all-ones (1-cell chunks), single chunk, chunks no larger than '
         'the kernel half-width, random compositions of H and of W (thorough: ALL compositions for H,W <= 4), different '
         'chunkings per band for multi-band indices; schedulers synchronous and threads x {1,4,16} workers. '
+        'generate_terrain with seeds (0 included), zfactor and x_range/y_range/full_extent combinations where the tile '
+        'covers different fractions of the extent in x and y; perlin with unequal (x, y) freq and seed 0. A second '
+        'stream builds 2-3 lazy results of a parametrised function on the SAME Dask rasters with different parameter '
+        'values (e.g. reclassify with the same bins and different new_values) and computes them in ONE dask.compute. '
         'Oracle = the same call on the NumPy-backed raster: result must be a dask Array before compute and after '
         'compute equal shape/dtype/bits (NaN==NaN) for the same-kernel functions; stated tolerances: hotspots may '
         'differ only where |z| is within 1e-4 of a confidence threshold (global mean/std reduced per block), perlin '
@@ -889,6 +948,31 @@ def gen_kernel(rng, H, W, binary, force=None):
     return k
 
 
+TERRAIN_EXTENTS = [
+    # (x_range, y_range, full_extent): the tile covers a DIFFERENT fraction of the extent in x than in y
+    ((0, 250), (250, 500), (0, 0, 500, 500)),
+    ((100, 200), (0, 500), (0, 0, 500, 500)),
+    ((-20, 20), (5, 10), (-40, 0, 40, 20)),
+    ((0, 500), (0, 125), (0, 0, 1000, 500)),
+    # equal fractions / whole extent / default
+    ((0, 250), (0, 250), (0, 0, 500, 500)),
+    ((0, 500), (0, 500), None),
+    (None, None, None),
+]
+
+
+def terrain_params(rng, case, asym=None):
+    """generate_terrain: seed (0 included), zfactor, and x_range / y_range / full_extent combinations"""
+    case['seed'] = rng.choice([0, 1, 10]) if rng.random() < 0.4 else rng.randint(0, 1000)
+    case['zfactor'] = rng.choice([4000, 100, 1, 2.5])
+    if asym is None:
+        asym = rng.random() < 0.6
+    xr_, yr_, fe = rng.choice(TERRAIN_EXTENTS[:4]) if asym else rng.choice(TERRAIN_EXTENTS[4:])
+    case['x_range'] = list(xr_) if xr_ is not None else None
+    case['y_range'] = list(yr_) if yr_ is not None else None
+    case['full_extent'] = list(fe) if fe is not None else None
+
+
 def gen_case(rng, fn, H=None, W=None, style=None, sched=None):
     H = H or rng.randint(1, 12)
     W = W or rng.randint(1, 12)
@@ -953,11 +1037,10 @@ def gen_case(rng, fn, H=None, W=None, style=None, sched=None):
             case['c'] = rng.choice([10.0, 5.0])
             case['th'] = rng.choice([0.125, 0.5])
     elif fn == 'perlin':
-        case['freq'] = [rng.randint(1, 4), rng.randint(1, 4)]
-        case['seed'] = rng.randint(0, 50)
+        case['freq'] = [rng.choice([1, 2, 3, 4, 7]), rng.choice([1, 2, 3, 4, 5])]   # (x, y) multipliers, mostly unequal
+        case['seed'] = rng.choice([0, 0, 1, 5]) if rng.random() < 0.4 else rng.randint(0, 1000)
     elif fn == 'generate_terrain':
-        case['seed'] = rng.randint(0, 50)
-        case['zfactor'] = rng.choice([4000, 100, 1])
+        terrain_params(rng, case)
     case['chunks'] = gen_chunks(rng, H, W, style, half)
     if 'data2' in case:
         # bands arrive with their own chunking (validate_arrays must align them)
@@ -986,19 +1069,32 @@ def _mk(a, case, chunks=None):
     return xr.DataArray(data, dims=['y', 'x'], coords={'y': np.arange(H) * csy, 'x': np.arange(W) * csx}, attrs=attrs)
 
 
-def call_fn(case, dask_backed):
-    """the public call of the case on NumPy-backed (dask_backed=False) or Dask-backed rasters"""
-    import xrspatial
-    from xrspatial import classify, convolution, focal, multispectral
+def make_bands(case, dask_backed):
+    """the input rasters of the case (1-3 bands) as NumPy- or Dask-backed DataArrays"""
     fn = case['fn']
     dt = case['dtype']
-
-    def band(key, ck):
+    out = {}
+    for key, ck in (('data', 'chunks'), ('data2', 'chunks2'), ('data3', 'chunks3')):
+        if key != 'data' and key not in case:
+            continue
         if fn in ('perlin', 'generate_terrain'):
             a = np.zeros((case['H'], case['W']), dtype=dt)
         else:
             a = _arr(case[key], dt)
-        return _mk(a, case, case[ck] if dask_backed else None)
+        out[key] = _mk(a, case, case[ck] if dask_backed else None)
+    return out
+
+
+def call_fn(case, dask_backed, bands=None):
+    """the public call of the case on NumPy-backed (dask_backed=False) or Dask-backed rasters"""
+    import xrspatial
+    from xrspatial import classify, convolution, focal, multispectral
+    fn = case['fn']
+    if bands is None:
+        bands = make_bands(case, dask_backed)
+
+    def band(key, ck):
+        return bands[key]
     r = band('data', 'chunks')
     if fn == 'slope':
         return xrspatial.slope(r)
@@ -1037,7 +1133,13 @@ def call_fn(case, dask_backed):
     if fn == 'perlin':
         return xrspatial.perlin(r, freq=tuple(case['freq']), seed=case['seed'])
     if fn == 'generate_terrain':
-        return xrspatial.generate_terrain(r, seed=case['seed'], zfactor=case['zfactor'])
+        kwargs = {}
+        if case.get('x_range') is not None:
+            kwargs['x_range'] = tuple(case['x_range'])
+            kwargs['y_range'] = tuple(case['y_range'])
+        if case.get('full_extent') is not None:
+            kwargs['full_extent'] = tuple(case['full_extent'])
+        return xrspatial.generate_terrain(r, seed=case['seed'], zfactor=case['zfactor'], **kwargs)
     raise ValueError(fn)
 
 
@@ -1270,6 +1372,127 @@ def check_model(ctx, pending):
                 break
 
 
+# ------------------------------------------------------------------ several lazy results computed together
+PARAM_FNS = ['reclassify', 'binary', 'equal_interval', 'hillshade', 'mean', 'convolution_2d', 'apply', 'focal_stats',
+             'hotspots', 'savi', 'true_color', 'perlin', 'generate_terrain']
+
+
+def gen_variants(rng, case):
+    """2-3 parameter settings for the SAME rasters/chunking (first one = the case's own parameters)"""
+    fn = case['fn']
+    H, W = case['H'], case['W']
+    n = rng.randint(2, 3)
+    out = [{}]
+    for i in range(n - 1):
+        v = {}
+        if fn == 'reclassify':
+            # same bins, different new_values (and sometimes different bins too)
+            v['new_values'] = [float(x) * rng.choice([10, 100]) + rng.randint(1, 9) for x in case['new_values']]
+            if rng.random() < 0.3:
+                v['bins'] = [b + 1.0 for b in case['bins']]
+        elif fn == 'binary':
+            v['values'] = [float(rng.randint(0, 4)) for _ in range(rng.randint(1, 3))]
+        elif fn == 'equal_interval':
+            v['k'] = case['k'] + i + 1
+        elif fn == 'hillshade':
+            v['azimuth'] = case['azimuth'] + 40 * (i + 1)
+            v['angle_altitude'] = rng.choice([10, 25, 60])
+        elif fn == 'mean':
+            v['passes'] = case['passes'] + i + 1
+        elif fn in ('convolution_2d', 'hotspots'):
+            k = case['kernel']
+            v['kernel'] = gen_kernel(rng, H, W, binary=(fn != 'convolution_2d'), force=(len(k), len(k[0])))
+        elif fn == 'apply':
+            v['func'] = rng.choice([f for f in APPLY_FUNCS if f != case['func']])
+        elif fn == 'focal_stats':
+            v['stats'] = rng.sample(STATS, rng.randint(1, 2))
+        elif fn == 'savi':
+            v['soil_factor'] = case['soil_factor'] + 0.25 * (i + 1)
+        elif fn == 'true_color':
+            v['c'] = case['c'] + 1.0 + i
+            v['th'] = rng.choice([0.125, 0.25, 0.5])
+        elif fn == 'perlin':
+            v['seed'] = case['seed'] + 1 + i
+            if rng.random() < 0.5:
+                v['freq'] = [case['freq'][1] + 1, case['freq'][0]]
+        elif fn == 'generate_terrain':
+            v['seed'] = case['seed'] + 1 + i if rng.random() < 0.5 else case['seed']
+            v['zfactor'] = case['zfactor'] * 2
+        out.append(v)
+    return out
+
+
+def run_together(case):
+    """the variants of the case: NumPy results one by one; Dask: all lazy results built on the SAME Dask rasters and
+    computed in ONE dask.compute call.  -> list of (variant case, numpy result|exc, dask result|exc, isd)"""
+    import dask
+    import dask.array as da
+    import warnings
+    variants = [dict({k: v for k, v in case.items() if k != 'variants'}, **v) for v in case['variants']]
+    res = []
+    with warnings.catch_warnings():
+        warnings.simplefilter('ignore')
+        with np.errstate(all='ignore'):
+            rns = []
+            for vc in variants:
+                try:
+                    rns.append(np.asarray(call_fn(vc, False).data))
+                except Exception as e:   # noqa
+                    rns.append(e)
+            bands = make_bands(case, True)
+            lazies = []
+            for vc in variants:
+                try:
+                    lazies.append(call_fn(vc, True, bands=bands).data)
+                except Exception as e:   # noqa
+                    lazies.append(e)
+            idx = [i for i, l in enumerate(lazies) if isinstance(l, da.Array)]
+            computed = {}
+            try:
+                kw_ = dict(scheduler='synchronous') if case['sched'] == 'synchronous' else \
+                    dict(scheduler='threads', num_workers=case['workers'])
+                outs = dask.compute(*[lazies[i] for i in idx], **kw_)
+                for i, o in zip(idx, outs):
+                    computed[i] = o
+            except Exception as e:   # noqa
+                for i in idx:
+                    computed[i] = e
+            for i, vc in enumerate(variants):
+                l = lazies[i]
+                if isinstance(l, Exception):
+                    res.append((vc, rns[i], l, None))
+                elif i in computed:
+                    res.append((vc, rns[i], computed[i], True))
+                else:
+                    res.append((vc, rns[i], np.asarray(l), False))
+    return res
+
+
+def explore_together(ctx, case):
+    ctx.case(case, nontrivial=True)
+    ctx.count('together/%s' % case['fn'])
+    ok = True
+    for i, (vc, rn, rd, isd) in enumerate(run_together(case)):
+        n0 = len(ctx.violations)
+        r = oracle(ctx, vc, rn, rd, isd)
+        for v in ctx.violations[n0:]:
+            # the replay must rebuild the whole group, not the single variant
+            v['what'] = '[variant %d of %d lazy results on the same Dask raster computed in one dask.compute] %s' % (
+                i + 1, len(case['variants']), v['what'])
+            v['replay'] = dict(case, failing_variant=i)
+        ok = ok and bool(r is not False)
+    return ok
+
+
+def gen_together(rng, fn):
+    if fn == 'generate_terrain':
+        c = gen_case(rng, fn, rng.randint(2, 6), rng.randint(2, 6))
+    else:
+        c = gen_case(rng, fn, rng.randint(2, 9), rng.randint(2, 9))
+    c['variants'] = gen_variants(rng, c)
+    return c
+
+
 # ------------------------------------------------------------------ run / search / replay
 def explore(ctx, case, pending=None):
     ctx.case(case, nontrivial=True)
@@ -1314,8 +1537,10 @@ def run(ctx, heavy=False):
     # 1. named hard cases + random cases, every function
     for fn in fns:
         if fn == 'generate_terrain':
-            n = 2 if quick else 8
+            n = 2 if quick else 12
             cases = [gen_case(rng, fn, rng.randint(2, 8), rng.randint(2, 8)) for _ in range(n)]
+            for i, c in enumerate(cases):       # first case: tile covering unequal x / y fractions of full_extent
+                terrain_params(rng, c, asym=True if i == 0 else None)
         elif fn == 'perlin':
             cases = [gen_case(rng, fn) for _ in range(4 if quick else 20)]
         else:
@@ -1325,6 +1550,20 @@ def run(ctx, heavy=False):
                 ctx.notes.append('time budget reached during the random sweep')
                 break
             explore(ctx, c, pending)
+    # 1b. several lazy results on the same Dask raster, different parameters, ONE dask.compute
+    for rnd in range(1 if quick else 6):
+        for fn in PARAM_FNS:
+            if ctx.elapsed() > budget:
+                break
+            if fn == 'generate_terrain' and (quick or rnd > 1):
+                continue
+            explore_together(ctx, gen_together(rng, fn))
+        # reclassify: the named hard case (same bins, different new_values) every round, twice
+        for _ in range(2):
+            c = gen_together(rng, 'reclassify')
+            for v in c['variants'][1:]:
+                v.pop('bins', None)
+            explore_together(ctx, c)
     # 2. model-eligible cases (integer data, integer kernels) so that the correspondence has enough traces
     n_model = 40 if quick else 600
     for i in range(n_model):
@@ -1386,6 +1625,10 @@ def search(ctx):
                 cases = targeted_cases(rng, fn) if fn not in ('perlin', 'generate_terrain') else [gen_case(rng, fn, rng.randint(2, 8), rng.randint(2, 8))]
                 for c in cases:
                     explore(ctx, c, None)
+                if fn in PARAM_FNS and fn != 'generate_terrain':
+                    explore_together(ctx, gen_together(rng, fn))
+            if rounds == 1:
+                explore_together(ctx, gen_together(rng, 'generate_terrain'))
             if len([v for v in ctx.violations if v['kind'] == 'oracle']) > n0:
                 break
     finally:
@@ -1394,5 +1637,9 @@ def search(ctx):
 
 def replay_case(ctx, case):
     pending = []
+    if 'variants' in case:
+        case = {k: v for k, v in case.items() if k != 'failing_variant'}
+        explore_together(ctx, case)
+        return
     explore(ctx, case, pending)
     check_model(ctx, pending)
